@@ -259,6 +259,7 @@ func (g *GcsEmu) handleGcsDelete(ctx context.Context, w http.ResponseWriter, buc
 		if err := validateConds(obj, conds); err != nil {
 			return err
 		}
+		verifPoint("delete.afterCheck", lockName(bucket, filename))
 
 		if err := g.store.Delete(bucket, filename); err != nil {
 			if os.IsNotExist(err) {
@@ -367,6 +368,7 @@ func (g *GcsEmu) handleGcsUpdateMetadataRequest(ctx context.Context, baseUrl Htt
 		if err := validateConds(obj, conds); err != nil {
 			return err
 		}
+		verifPoint("patch.afterCheck", lockName(bucket, filename))
 
 		// Update via json decode.
 		metagen := obj.Metageneration
@@ -421,6 +423,7 @@ func (g *GcsEmu) handleGcsCopy(ctx context.Context, baseUrl HttpBaseUrl, w http.
 	// Must lock the destination object.
 	var obj *storage.Object
 	err := g.locks.Run(ctx, lockName(b2, f2), func(ctx context.Context) error {
+		verifPoint("copy.locked", lockName(b2, f2))
 		if ok, err := g.store.Copy(b1, f1, b2, f2); err != nil {
 			return err
 		} else if !ok {
@@ -658,6 +661,7 @@ func (g *GcsEmu) finishUpload(ctx context.Context, baseUrl HttpBaseUrl, obj *sto
 		if err := validateConds(existing, conds); err != nil {
 			return err
 		}
+		verifPoint("upload.afterCheck", lockName(bucket, filename))
 
 		if existing != nil {
 			obj.TimeCreated = existing.TimeCreated
@@ -807,6 +811,7 @@ func (g *GcsEmu) finishCompose(baseUrl HttpBaseUrl, bucket string, dst composeOb
 	if err := validateConds(dstMeta, dst.conds); err != nil {
 		return nil, err
 	}
+	verifPoint("compose.afterCheck", lockName(bucket, dst.filename))
 	if dstMeta != nil {
 		meta.TimeCreated = dstMeta.TimeCreated
 	}
